@@ -15,11 +15,10 @@
 (*   multi, exclBody, exclQuery, authReadsBody : BOOLEAN                   *)
 (*   prefs   : "none" | "path" | "op" | "both": the parameters of that level are $refs to               *)
 (*             components.parameters (the contract does not look at it)                               *)
-(*   opts    : "plain" | "skipdefaults" | "exclreadonly" | "nil": options the statement does not      *)
-(*             mention leave the verdict alone; "nil" = no Options value at all (hence no callback:   *)
-(*             only generated where the security list in effect is empty)                             *)
-(*   hist    : sequence of steps [via, pparams, oparams, opSec, docSec, bdecl]: further validations   *)
-(*             served by the same process / document / Operation value (see View)                     *)
+(*   opts    : "plain" | "skipdefaults" | "exclreadonly" | "nocallback" | "nil": options the         *)
+(*             statement does not mention leave the verdict alone; "nocallback" = no                  *)
+(*             AuthenticationFunc, "nil" = no Options value at all (hence no callback either):        *)
+(*             no scheme can be accepted (accepts = {}), nothing is called                            *)
 (***************************************************************************)
 EXTENDS Naturals, Sequences, FiniteSets, TLC
 
@@ -106,6 +105,7 @@ CallsOfReq(r, accepts) ==
    IF r = <<>> THEN <<>>
    ELSE IF Head(r) \notin Declared THEN <<>>          \* looked up before the callback is asked: abandoned without a call
    ELSE IF Head(r) \in accepts THEN <<Head(r)>> \o CallsOfReq(Tail(r), accepts) ELSE <<Head(r)>>
+NoCallback(c) == "opts" \in DOMAIN c /\ c.opts \in {"nocallback", "nil"}
 RECURSIVE ExpectedCalls(_, _)
 ExpectedCalls(es, accepts) ==
    IF es = <<>> THEN <<>>
